@@ -110,6 +110,12 @@ pub const NUM_CARRIERS: &[&str] = &[
     "let f = func p1 p2:§ -> p1 + p2\nfrom t | select {x = f §}",
     "from t | sort {§} | take §",
     "from t | select {x = $§}",
+    // date / time literals built from numbers
+    "from t | select {x = @§}",
+    "from t | select {x = @§:§}",
+    "from t | select {x = @§Z}",
+    "from t | select {x = @2020-§-§}",
+    "from t | select {x = @2020-01-01T§:§}",
     // numbers inside embedded data
     "from_text format:json '[{\"a\": §}]'",
     "from_text format:json '[{\"a\": §, \"b\": §}]' | select {a}",
@@ -443,8 +449,8 @@ pub fn for_each_case(part: &str, tier: Tier, mut f: impl FnMut(u64, Case) -> boo
         "numbers" => {
             // every numeric position × boundary values (one or two slots per carrier)
             let vals: &[&str] = tier.pick(
-                &["0", "1", "-1", "65536", "4294967296", "9223372036854775807", "-9223372036854775808", "9223372036854775808", "1e309", "0.5"],
-                &["0", "1", "-1", "2", "255", "256", "65535", "65536", "2147483647", "2147483648", "4294967295", "4294967296", "9223372036854775806", "9223372036854775807", "-9223372036854775807", "-9223372036854775808", "9223372036854775808", "18446744073709551615", "18446744073709551616", "1e308", "1e309", "-1e309", "0.5", "00", "1_000", "0x7fffffffffffffff", "0xffffffffffffffff", "0b1", "0o7"],
+                &["0", "1", "-1", "12", "65536", "4294967296", "9223372036854775807", "-9223372036854775808", "9223372036854775808", "1e309", "0.5"],
+                &["0", "1", "-1", "2", "08", "12", "255", "256", "65535", "65536", "2147483647", "2147483648", "4294967295", "4294967296", "9223372036854775806", "9223372036854775807", "-9223372036854775807", "-9223372036854775808", "9223372036854775808", "18446744073709551615", "18446744073709551616", "1e308", "1e309", "-1e309", "0.5", "00", "1_000", "0x7fffffffffffffff", "0xffffffffffffffff", "0b1", "0o7"],
             );
             for carrier in NUM_CARRIERS {
                 let slots = carrier.matches('§').count();
@@ -1082,7 +1088,7 @@ pub fn run(tier: Tier) -> i32 {
     run.set("growth_families", json!(fam_table));
     run.transitions = run.states;
     run.set("bounds", json!({"token_alphabet": LEX.len(), "token_sequences": tier.pick("len<=2 over 59 items, len 3 over the 32-item core", "len<=3 over 59 items, len 4 over the 32-item core"), "edit_kinds": ["delete","duplicate","swap-adjacent","replace-by-alphabet-item"], "replacement_alphabet": tier.pick(LEX_SMALL.len(), LEX.len()),
-        "text_payloads": "36 text-bearing positions × ASCII prefixes of every length 0..=13 (three prefix texts) × multi-byte characters of 2, 3 and 4 bytes × suffixes", "number_payloads": "38 numeric positions × boundary values (all pairs for two-slot positions)", "json_edits": "every node × {delete, null, constants, duplicate element, other id, fresh id, swapped enum tag}", "families": FAMILIES, "family_sizes": ns, "stack_bytes": 8 << 20, "wall_cap_s": WALL_CAP_S, "dialects": 12}));
+        "text_payloads": "36 text-bearing positions × ASCII prefixes of every length 0..=13 (three prefix texts) × multi-byte characters of 2, 3 and 4 bytes × suffixes", "number_payloads": "48 numeric positions × boundary values (all pairs for two-slot positions)", "json_edits": "every node × {delete, null, constants, duplicate element, other id, fresh id, swapped enum tag}", "families": FAMILIES, "family_sizes": ns, "stack_bytes": 8 << 20, "wall_cap_s": WALL_CAP_S, "dialects": 12}));
     run.set("rule", json!("case = one input driven through every public entry point (tokens, pl, fmt, json, rq, sql for 12 dialects, one-shot compile); a panic, a dead worker, an empty error list, a call over the wall cap or allocation growth above 2^3.5 per doubling is a violation; identity of a finding = panic file + message head (file:line for generic unwrap messages) / family name"));
     run.assume("growth ('small polynomial') is judged by a deterministic allocation meter on parametric families, not by wall time");
     run.assume("depth families run on a stated 8 MiB stack");
